@@ -2109,7 +2109,12 @@ func (gs *GossipSubRouter) flush() {
 	// send the remaining control messages that wasn't merged with gossip
 	for p, ctl := range gs.control {
 		delete(gs.control, p)
-		out := rpcWithControl(nil, nil, nil, ctl.Graft, ctl.Prune, nil)
+		// drop what has become stale since it was queued for a retry, as piggybackControl does
+		out := &RPC{}
+		gs.piggybackControl(p, out, ctl)
+		if out.Control == nil {
+			continue
+		}
 		gs.sendRPC(p, out, false)
 	}
 }
